@@ -272,6 +272,8 @@ def run(repo: Repo, L: Ledger, tier: str):
             ok5 = True
         elif isinstance(it, ast.Attribute) and it.attr == "rows":
             ok5 = True
+    if not row_loops:
+        raise AnalysisError(f"{fmt.short}: no loop over a scaffold's rows in the formatter itself (rows are produced by a helper): form not understood")
     L.check(bool(row_loops) and ok5, "O5", f"{fmt.short}:rows", "rows iterated unfiltered, in order", f"row loop iterates over '{norm(row_loops[0].iter) if row_loops else None}' (must be the scaffold's rows, unfiltered)", fmt.loc())
 
     # ---- O9 single writer
